@@ -149,6 +149,8 @@ class Gen:
             T.mark(op["k"], [op["i"]])
         elif t == "deliver_all":
             T.mark(op["k"], range(L))
+        elif t == "lose":
+            T.mark(op["k"], range(L))
         elif t == "deliver_from":
             T.mark(op["k"], [i for i in range(L) if T.soup[i]["key"] in op["keys"]])
         elif t == "round":
@@ -599,11 +601,91 @@ class Gen:
         if stopped is not None and rng.chance(2, 3):
             self.emit({"t": "restart", "k": stopped})
 
+    # ---- directed family "laggard after a partial view change" (liveness) ----
+    def committee_laggard(self):
+        rng = self.rng
+        ws = rng.shuffle(rng.choice([[1] * 6, [1] * 6, [1] * 7, [2, 1, 1, 1, 1], [1] * 6]))
+        ranks = sorted(rng.shuffle(list(range(16)))[:len(ws)])
+        c = list(zip(ranks, ws))
+        f = (sum(ws) - 1) // 5
+        lights = [r for r, w in c if w == 1]
+        # the faulty member: a silent Byzantine one (not simulated), a node stopped later, or none
+        self.lag_mode = rng.choice(["byz", "stop", "stop", "none"])
+        byz = rng.choice(lights) if self.lag_mode == "byz" else None
+        return c, [r for r in ranks if r != byz], byz, f
+
+    def laggard(self, c, honest, byz, f):
+        """All nodes time out in view v; fewer than a quorum of them (the nodes AHEAD) receive the
+        quorum of view-v timeouts and enter v+1 while the laggard(s) are partitioned away; the
+        partition outlasts one view timeout (the nodes ahead time out once in v+1); everything sent
+        to the laggards so far is LOST; one more member may be faulty (silent Byzantine or stopped).
+        Then the network heals: only the new-view re-broadcast at later timer expiries can bring
+        the laggards to v+1, and without them the nodes ahead never assemble TimeoutQC(v+1)."""
+        T, rng = self.T, self.rng
+        N, wt, q = T.N, dict(c), M.quorum(c)
+        leader = lambda v: c[v % len(c)][0]
+        self.directed_variant = "laggard:none"
+        found = self.find_clean_view(c, honest, 0)
+        if not found:
+            self.note("directed:no_clean_view")
+            return
+        V, ip = found
+        if rng.chance(1, 2):
+            for k in range(N):
+                self.emit({"t": "deliver", "k": k, "i": ip})
+        for k in range(N):
+            self.emit({"t": "timer", "k": k})
+        up = list(range(N))
+        D = None
+        if self.lag_mode == "stop":
+            cands = [k for k in up if wt[honest[k]] <= f]
+            if cands:
+                D = rng.choice(cands)
+                self.note("directed:laggard_one_stopped")
+                self.emit({"t": "stop", "k": D})
+                up.remove(D)
+                self.keep_down = True
+        # laggards: the nodes ahead must weigh less than a quorum, all up nodes together a quorum
+        z = rng.below(6)
+        want = "next_leader" if z < 2 else ("two" if z == 2 else ("half" if z == 3 else "one"))
+        Ls = []
+        if want == "next_leader" and leader(V + 1) in honest and honest.index(leader(V + 1)) in up:
+            Ls = [honest.index(leader(V + 1))]
+        pool = rng.shuffle([k for k in up if k not in Ls])
+        target = {"two": 2, "half": len(up) // 2}.get(want, 1)
+        while pool and (len(Ls) < target or sum(wt[honest[k]] for k in up if k not in Ls) >= q):
+            Ls.append(pool.pop())
+        A = [k for k in up if k not in Ls]
+        if not A or sum(wt[honest[k]] for k in up) < q:
+            self.note("directed:laggard_infeasible")
+            return
+        self.directed_variant = "laggard:" + want
+        self.note("directed:laggard_" + want)
+        # the nodes ahead assemble TimeoutQC(V) (any signers) and enter V+1
+        self.timeouts_to(A, V, set(wt))
+        if rng.chance(1, 2):
+            # they also hear each other in V+1 (new-views, the proposal and the votes: no quorum)
+            for _ in range(2):
+                for k in A:
+                    self.deliver_where(k, lambda m: m["view"] == V + 1 and m["key"] in [honest[a] for a in A])
+        # the partition outlasts one view timeout: first timer expiry in V+1 of the nodes ahead
+        for k in A:
+            if T.view[k] == V + 1:
+                self.emit({"t": "timer", "k": k})
+        if rng.chance(1, 3):
+            for k in Ls:
+                self.emit({"t": "timer", "k": k})
+        # everything sent to the laggards so far is lost
+        for k in Ls:
+            self.emit({"t": "lose", "k": k})
+
     # ---- a case ----
     def run(self, directed=False):
         rng, opts = self.rng, self.opts
         self.force_commit_one = directed == "commit_one"
-        c, honest, byz, f = (self.committee_split() if directed == "split" else
+        self.keep_down = False
+        c, honest, byz, f = (self.committee_laggard() if directed == "laggard" else
+                             self.committee_split() if directed == "split" else
                              self.committee_directed() if directed else self.committee())
         self.F = rng.choice([0, 0, 1, 7])
         header = {"committee": M.committee_json(c), "nodes": honest, "first_block": str(self.F), "max_payload": 100, "ops": []}
@@ -618,7 +700,9 @@ class Gen:
         budget = rng.range(opts.get("prefix_min", 30), opts.get("prefix_ops", 120))
         hang = False
         try:
-            if directed == "split":
+            if directed == "laggard":
+                self.laggard(c, honest, byz, f)
+            elif directed == "split":
                 self.split_vote(c, honest, byz, f)
             elif directed:
                 self.commit_then_timeout(c, honest, byz, f)
@@ -628,7 +712,7 @@ class Gen:
             wt = dict(c)
             faulty = wt[byz] if byz is not None else 0
             for k in range(self.T.N):
-                if self.T.alive[k] == 2 and (faulty + wt[honest[k]] > f or rng.chance(1, 2)):
+                if self.T.alive[k] == 2 and (faulty + wt[honest[k]] > f or (rng.chance(1, 2) and not self.keep_down)):
                     self.note("restart:before_suffix")
                     self.emit({"t": "restart", "k": k})
                 elif self.T.alive[k] == 2:
@@ -702,6 +786,8 @@ def c_sop(op):
         return "SSync %s" % c_nat(op["k"])
     if t == "deliver_all":
         return "SDeliverAllTo %s" % c_nat(op["k"])
+    if t == "lose":
+        return "SLoseAllTo %s" % c_nat(op["k"])
     if t == "deliver_from":
         return "SDeliverFrom %s %s" % (c_nat(op["k"]), coq_list([coq_z(x) for x in op["keys"]]))
     if t == "round":
@@ -893,8 +979,9 @@ def run_sim_cases(rep, prop, opts, n, rng, broken, extra_cases=()):
             outs.append(o)
     # a fixed quarter of the schedules (at least 2) belongs to the directed family "commit then timeout"
     # (every other one of them is the plain variant: one node commits, the others time out)
-    # one schedule in 8 belongs to the directed family "split vote, then commit then timeout"
-    rngs = [(rng.fork(), "commit_one" if i % 8 == 1 else ("split" if i % 8 == 3 else (i % 4 == 1 or (n < 8 and i < min(2, n)))))
+    # one schedule in 8 belongs to the directed family "split vote, then commit then timeout", one in 8 to
+    # "laggard after a partial view change"
+    rngs = [(rng.fork(), "commit_one" if i % 8 == 1 else ("split" if i % 8 == 3 else "laggard" if i % 8 == 7 else (i % 4 == 1 or (n < 8 and i < min(2, n)))))
             for i in range(n)]
     with ThreadPoolExecutor(max_workers=opts.get("workers", 12)) as ex:
         for case, out in ex.map(lambda r: gen_case(r[0], opts, r[1]), rngs):
@@ -961,6 +1048,40 @@ def first_diff(model_obs, impl_obs):
 # ---------------------------------------------------------------------------
 # live runs: the real component (Config::run: run loop with its view timer, proposer loop, inbound
 # queue) of every node on one manual clock, the harness being the network; monitors only
+
+def gen_live_laggard(rng, opts):
+    """directed live script "laggard after a partial view change": one member is faulty (silent
+    Byzantine or stopped), the laggards go deaf (what they send still travels, so the others can
+    change view with their votes; what is sent to them is lost) for two view timeouts, then the
+    network heals"""
+    g = Gen(rng, opts)
+    c, honest, byz, f = g.committee_laggard()
+    N, wt, q = len(honest), dict(c), M.quorum(c)
+    script = [{"t": "tick", "ms": rng.range(1, 30)}]
+    up = list(range(N))
+    stopped = []
+    if g.lag_mode == "stop":
+        D = rng.choice([k for k in up if wt[honest[k]] <= f])
+        script.append({"t": "stop", "k": D})
+        up.remove(D)
+        stopped = [D]
+        script.append({"t": "tick", "ms": rng.range(1, 30)})
+    pool = rng.shuffle(up)
+    Ls = [pool.pop()]
+    while pool and (sum(wt[honest[k]] for k in up if k not in Ls) >= q or rng.chance(1, 4)) and len(Ls) < len(up) - 1:
+        Ls.append(pool.pop())
+    script.append({"t": "deaf", "ks": sorted(Ls)})
+    script.append({"t": "tick", "ms": 1001})
+    script.append({"t": "tick", "ms": rng.choice([1001, 1001, 400])})
+    script.append({"t": "heal"})
+    meta = {"byz": byz, "f": f, "down": stopped, "suffix_start": len(script), "directed": "live_laggard"}
+    kf = faulty_run({"_c": c, "_meta": meta, "nodes": honest})
+    for _ in range(round_bound(kf) + 2):
+        script.append({"t": "tick", "ms": 1001})
+        script.append({"t": "sync"})
+    return {"committee": M.committee_json(c), "nodes": honest, "first_block": str(rng.choice([0, 0, 3])),
+            "live_seed": rng.next() >> 1, "script": script, "_c": c, "_meta": meta, "_kinds": {"live:laggard": 1}}
+
 
 def gen_live(rng, opts):
     g = Gen(rng, opts)
@@ -1066,7 +1187,8 @@ def live_monitors(case, out):
 
 
 def run_live_cases(opts, n, rng):
-    cases = [gen_live(rng.fork(), opts) for _ in range(n)]
+    # every third live run is the directed script "laggard after a partial view change"
+    cases = [(gen_live_laggard if i % 3 == 1 else gen_live)(rng.fork(), opts) for i in range(n)]
     env_wd = str(opts.get("live_watchdog_s", 75))
     os.environ["SIM_WATCHDOG_S"] = env_wd
     try:
